@@ -117,7 +117,7 @@ def session_family(ctx, extra_args=None, runs=None):
         if "ill-formed range" in b["what"]:
             for i in b.get("idx", []):
                 r = e["rs"][i - 1]
-                viols.append({"what": "%s [%s] (%s)" % (b["what"], r[-1], range_class(r)), "replay": dict(base, detail=r)})
+                viols.append({"what": "%s [%s] (%s)" % (b["what"], r[7], range_class(r)), "replay": dict(base, detail=r)})
         else:
             viols.append({"what": b["what"], "replay": dict(base, first=b.get("first"))})
     cov = {
@@ -162,3 +162,122 @@ def replay(ctx, path):
             print("not reproduced")
         raise SystemExit(1 if mine else 0)
     raise Infra("unknown replay record")
+
+
+# ------------------------------------------------------------------------------------------------
+# generic "driver + TraceSession" pipeline for det / frame / shift
+# ------------------------------------------------------------------------------------------------
+def driver_trace(ctx, runs, count_key):
+    files, n = [], 0
+    for i, args in enumerate(runs):
+        pre = os.path.join(ctx.work, "d%d" % i)
+        p = ctx.run_hx(args + ["-out", pre, "-seed", str(ctx.seed)])
+        if p.returncode == 3:
+            hang = open(pre + ".hang").read()
+            return None, {"hang": hang}, []
+        info = json.loads(p.stdout.strip().splitlines()[-1])
+        n += info.get(count_key, 0)
+        files += sorted(glob.glob(pre + ".*.ndjson"))
+    if not files or n == 0:
+        raise Infra("driver produced nothing")
+    bad, events = ctx.validate_traces("TraceSession.tla", "TraceSession.cfg", files)
+    for b in bad:
+        if b["prop"] == "MODEL":
+            raise Infra("model/harness disagreement: %s line %d: %s" % (b["file"], b["l"], b["what"]))
+    return [b for b in bad if b["prop"] == ctx.prop], {"n": n, "events": events}, files
+
+
+def world_of(evs, l):
+    for i in range(l - 1, -1, -1):
+        if evs[i]["ev"] == "Init":
+            return evs[i].get("world")
+    return None
+
+
+@pipeline("C03")
+def p_c03(ctx):
+    q = [["det", "-worlds", "kinds,tf,tfbad,hostile", "-rounds", "6", "-stride", "9"]]
+    t = [["det", "-worlds", "kinds,tf,tfbad,hostile", "-rounds", "30", "-stride", "2"]]
+    bad, info, files = driver_trace(ctx, q if ctx.quick else t, "events")
+    viols, keys, samples = [], set(), []
+    cache = {}
+    for f in files:
+        evs = [json.loads(x) for x in open(f)]
+        cache[f] = evs
+        for e in evs:
+            if e["ev"] == "Det":
+                keys.add((f, e["key"]))
+        samples += [e for e in evs if e["ev"] == "Det"][:2]
+    for b in bad or []:
+        evs = cache[b["file"]]
+        e = evs[b["l"] - 1]
+        kind = e["key"].split("|")[0]
+        viols.append({"what": "result of %s is not a function of its inputs (regime %s)" % (kind, e.get("regime")),
+                      "replay": {"pipeline": "det", "world": world_of(evs, b["l"]), "key": e["key"], "regime": e.get("regime")}})
+    finish(ctx, viols, {
+        "evaluations": info["n"], "distinct_nontrivial": len(keys),
+        "rule": "one case = one query key (kind, path, file, offset, prefill); every key is run repeatedly on one decoder in shuffled order, on fresh decoders "
+                "and on freshly built contexts; the memo rule of Session!Det rejects two different digests for one key; evaluations = library calls",
+        "traces_validated_against_impl": len(files), "trace_events": info["events"], "samples": samples[:4], "exhaustive": False},
+        assumptions=["digests are order-sensitive for every slice except hcl.Diagnostics (multiset) and render Go maps in key order"])
+
+
+@pipeline("C04")
+def p_c04(ctx):
+    # (1) fingerprint around every single query of a shuffled mixed workload
+    q = [["frame", "-worlds", "kinds,tf,tfbad,hostile", "-stride", "29"]]
+    t = [["frame", "-worlds", "kinds,tf,tfbad,hostile", "-stride", "3"]]
+    bad, info, files = driver_trace(ctx, q if ctx.quick else t, "events")
+    viols = []
+    for b in bad or []:
+        evs = [json.loads(x) for x in open(b["file"])]
+        e = evs[b["l"] - 1]
+        viols.append({"what": b["what"], "replay": {"pipeline": "frame", "world": world_of(evs, b["l"]), "kind": e.get("k"), "at": e.get("at"), "file": e.get("f")}})
+    # (2) fingerprint after every query batch of typing histories (incl. error outcomes on broken buffers)
+    v2, cov2, files2 = session_family(ctx, extra_args=["-fpevery", "1" if not ctx.quick else "3"])
+    viols += v2
+    samples = []
+    for f in files[:2]:
+        for x in open(f):
+            e = json.loads(x)
+            if e["ev"] == "Q":
+                samples.append({"kind": e["k"], "at": e.get("at"), "fp_after": e["fp"], "hist": e["hist"]})
+                break
+    finish(ctx, viols, {
+        "evaluations": info["n"] + cov2["evaluations"], "distinct_nontrivial": info["n"] + cov2["distinct_nontrivial"],
+        "rule": "case = one query (frame driver: deep fingerprint of every PathContext incl. unexported fields, schema, files, AST, functions, targets, origins, taken "
+                "after every single query) or one buffer state of a typing history (fingerprint after every query batch); Session!Query requires fp' = fp",
+        "traces_validated_against_impl": len(files) + len(files2), "trace_events": info["events"] + cov2["trace_events"],
+        "samples": samples, "exhaustive": False},
+        assumptions=["the fingerprint is a reflection walk (maps in key order, functions by identity); a change invisible to reflection is not seen"])
+
+
+@pipeline("C18")
+def p_c18(ctx):
+    q = [["shift", "-worlds", "kinds,tf", "-stride", "7", "-maxins", "4"]]
+    t = [["shift", "-worlds", "kinds,tf,hostile", "-stride", "1", "-maxins", "0"]]
+    bad, info, files = driver_trace(ctx, q if ctx.quick else t, "queries")
+    viols, samples, nshift = [], [], 0
+    for f in files:
+        for x in open(f):
+            e = json.loads(x)
+            if e["ev"] == "InsertLines":
+                nshift += 1
+                if len(samples) < 3:
+                    samples.append({"edit": e["note"], "file": e["f"]})
+    for b in bad or []:
+        evs = [json.loads(x) for x in open(b["file"])]
+        e = evs[b["l"] - 1]
+        ins = None
+        for i in range(b["l"] - 1, -1, -1):
+            if evs[i]["ev"] == "InsertLines":
+                ins = evs[i]
+                break
+        viols.append({"what": b["what"], "replay": {"pipeline": "shift", "world": world_of(evs, b["l"]), "edit": ins and ins["note"], "file": e.get("f"),
+                                                    "example": e.get("example"), "pairs": [e["pairs"][i - 1] for i in b.get("idx", [])][:5]}})
+    finish(ctx, viols, {
+        "evaluations": info["n"], "distinct_nontrivial": nshift,
+        "rule": "case = one (document, insertion line, inserted lines) triple; every query kind is run before the edit and, at the moved cursor, after it; "
+                "TLC applies Session!InsertLinesAt to its text model and checks every reported position against Text!ShiftPos; evaluations = query pairs",
+        "traces_validated_against_impl": len(files), "trace_events": info["events"], "samples": samples, "exhaustive": not ctx.quick},
+        assumptions=["inserted material: blank lines, #, // (multi-byte) and /* */ comment lines placed before a top-level item or after the last one"])
